@@ -181,6 +181,115 @@ func (p *Prog) registrationRows() []regRow {
 			continue
 		}
 		info := pk.TypesInfo
+		// a local that is given a value exactly once stands for that value
+		// (typ := reflect.TypeOf(X); table := [...]entry{...})
+		single := map[types.Object]ast.Expr{}
+		multi := map[types.Object]bool{}
+		allRHS := map[types.Object][]ast.Expr{}
+		note := func(id *ast.Ident, rhs ast.Expr) {
+			o := info.Defs[id]
+			if o == nil {
+				o = info.Uses[id]
+			}
+			if o == nil {
+				return
+			}
+			allRHS[o] = append(allRHS[o], rhs)
+			if _, seen := single[o]; seen || multi[o] {
+				multi[o] = true
+				delete(single, o)
+				return
+			}
+			single[o] = rhs
+		}
+		ast.Inspect(decl.Body, func(n ast.Node) bool {
+			switch x := n.(type) {
+			case *ast.AssignStmt:
+				if len(x.Lhs) == len(x.Rhs) {
+					for i, l := range x.Lhs {
+						if id, ok := l.(*ast.Ident); ok {
+							note(id, x.Rhs[i])
+						}
+					}
+				} else {
+					for _, l := range x.Lhs {
+						if id, ok := l.(*ast.Ident); ok {
+							note(id, nil)
+							note(id, nil)
+						}
+					}
+				}
+			case *ast.ValueSpec:
+				for i, nm := range x.Names {
+					if i < len(x.Values) {
+						note(nm, x.Values[i])
+					}
+				}
+			}
+			return true
+		})
+		var resolve func(e ast.Expr, depth int) ast.Expr
+		resolve = func(e ast.Expr, depth int) ast.Expr {
+			e = ast.Unparen(e)
+			if id, ok := e.(*ast.Ident); ok && depth < 4 {
+				if rhs, ok := single[info.Uses[id]]; ok && rhs != nil {
+					return resolve(rhs, depth+1)
+				}
+			}
+			return e
+		}
+		// range loops over a literal table: for _, e := range [...]T{{typ: X, codec: Y}, ...}
+		type tableLoop struct {
+			rng   *ast.RangeStmt
+			v     types.Object
+			elems []*ast.CompositeLit
+		}
+		var loops []tableLoop
+		ast.Inspect(decl.Body, func(n ast.Node) bool {
+			rng, ok := n.(*ast.RangeStmt)
+			if !ok || rng.Value == nil {
+				return true
+			}
+			vid, ok := rng.Value.(*ast.Ident)
+			if !ok || info.Defs[vid] == nil {
+				return true
+			}
+			lit, ok := resolve(rng.X, 0).(*ast.CompositeLit)
+			if !ok {
+				return true
+			}
+			tl := tableLoop{rng: rng, v: info.Defs[vid]}
+			for _, el := range lit.Elts {
+				if kv, ok := el.(*ast.KeyValueExpr); ok {
+					el = kv.Value
+				}
+				cl, ok := ast.Unparen(el).(*ast.CompositeLit)
+				if !ok {
+					return true
+				}
+				tl.elems = append(tl.elems, cl)
+			}
+			loops = append(loops, tl)
+			return true
+		})
+		fieldOf := func(cl *ast.CompositeLit, name string) ast.Expr {
+			st, ok := info.TypeOf(cl).Underlying().(*types.Struct)
+			if !ok {
+				return nil
+			}
+			for i, el := range cl.Elts {
+				if kv, ok := el.(*ast.KeyValueExpr); ok {
+					if id, ok := kv.Key.(*ast.Ident); ok && id.Name == name {
+						return kv.Value
+					}
+					continue
+				}
+				if i < st.NumFields() && st.Field(i).Name() == name {
+					return el
+				}
+			}
+			return nil
+		}
 		ast.Inspect(decl.Body, func(n ast.Node) bool {
 			call, ok := n.(*ast.CallExpr)
 			if !ok {
@@ -196,27 +305,90 @@ func (p *Prog) registrationRows() []regRow {
 			if len(call.Args) < 2 {
 				return true
 			}
-			row := regRow{In: &fnRef{obj, decl, pk}, Call: call}
-			// arg0 must be reflect.TypeOf(X)
-			if tc, ok := ast.Unparen(call.Args[0]).(*ast.CallExpr); ok {
-				if f := callee(info, tc); isPkgFunc(f, "reflect", "TypeOf") && len(tc.Args) == 1 {
-					row.GoType = info.TypeOf(tc.Args[0])
+			// inside a table loop: one row per element of the table
+			var tl *tableLoop
+			for i := range loops {
+				if loops[i].rng.Body.Pos() <= call.Pos() && call.End() <= loops[i].rng.Body.End() {
+					usesV := false
+					for _, a := range call.Args {
+						ast.Inspect(a, func(m ast.Node) bool {
+							if id, ok := m.(*ast.Ident); ok && info.Uses[id] == loops[i].v {
+								usesV = true
+							}
+							return true
+						})
+					}
+					if usesV {
+						tl = &loops[i]
+					}
 				}
 			}
-			row.Codec = info.TypeOf(call.Args[len(call.Args)-1])
-			if cal.Name() == "RegisterCodecWithTag" && len(call.Args) == 3 {
-				row.TagExpr = call.Args[1]
-				if v := constOf(info, call.Args[1]); v != nil {
-					row.Tag = strings.Trim(v.ExactString(), `"`)
-				} else {
-					row.Tag = "?"
+			variants := []func(ast.Expr) ast.Expr{func(e ast.Expr) ast.Expr { return resolve(e, 0) }}
+			if tl != nil {
+				variants = nil
+				for _, el := range tl.elems {
+					el := el
+					variants = append(variants, func(e ast.Expr) ast.Expr {
+						e = ast.Unparen(e)
+						if sel, ok := e.(*ast.SelectorExpr); ok {
+							if id, ok := sel.X.(*ast.Ident); ok && info.Uses[id] == tl.v {
+								if fv := fieldOf(el, sel.Sel.Name); fv != nil {
+									return resolve(fv, 0)
+								}
+							}
+						}
+						return resolve(e, 0)
+					})
 				}
 			}
-			rows = append(rows, row)
+			// a codec chosen into a local first (c := A{}; if opt { c = B{} }; Register(t, c)): one row per value
+			if id, ok := ast.Unparen(call.Args[len(call.Args)-1]).(*ast.Ident); ok && tl == nil {
+				if o := info.Uses[id]; o != nil && multi[o] {
+					okAll := len(allRHS[o]) > 0
+					for _, r := range allRHS[o] {
+						if r == nil {
+							okAll = false
+						}
+					}
+					if okAll {
+						base := variants[0]
+						variants = nil
+						for _, r := range allRHS[o] {
+							r := r
+							variants = append(variants, func(e ast.Expr) ast.Expr {
+								if eid, ok := ast.Unparen(e).(*ast.Ident); ok && info.Uses[eid] == o {
+									return ast.Unparen(r)
+								}
+								return base(e)
+							})
+						}
+					}
+				}
+			}
+			for _, rs := range variants {
+				row := regRow{In: &fnRef{obj, decl, pk}, Call: call}
+				// arg0 must be reflect.TypeOf(X)
+				if tc, ok := rs(call.Args[0]).(*ast.CallExpr); ok {
+					if f := callee(info, tc); isPkgFunc(f, "reflect", "TypeOf") && len(tc.Args) == 1 {
+						row.GoType = info.TypeOf(tc.Args[0])
+					}
+				}
+				row.Codec = info.TypeOf(rs(call.Args[len(call.Args)-1]))
+				if cal.Name() == "RegisterCodecWithTag" && len(call.Args) == 3 {
+					te := rs(call.Args[1])
+					row.TagExpr = te
+					if v := constOf(info, te); v != nil {
+						row.Tag = strings.Trim(v.ExactString(), `"`)
+					} else {
+						row.Tag = "?"
+					}
+				}
+				rows = append(rows, row)
+			}
 			return true
 		})
 	}
-	sort.Slice(rows, func(i, j int) bool { return rows[i].Call.Pos() < rows[j].Call.Pos() })
+	sort.SliceStable(rows, func(i, j int) bool { return rows[i].Call.Pos() < rows[j].Call.Pos() })
 	return rows
 }
 
